@@ -126,7 +126,12 @@ pub fn specs(tier: &str) -> Vec<ExpSpec> {
             let b = st.read_vec(0, 512);
             harness::decoder::parse_raw(&b).map(|g| g.cluster_size() as u32).unwrap_or(512)
         };
-        v.push(ExpSpec::new(c, alphabet(cs), 2));
+        v.push(ExpSpec::new(c.clone(), alphabet(cs), 2));
+        // the same geometry with two open files (one holding data in two clusters) and a directory: the two explored
+        // calls then include writes, truncations, removals of entries with data and moves with these cluster sizes
+        let mut c2 = c;
+        c2.name = format!("{}-pre", c2.name);
+        v.push(ExpSpec::new(c2, alphabet(cs), 2).with_prefix(crate::c03::grid_prefix(cs)));
     }
     v.extend(crate::c03::garbage_specs(th));
     v.extend(crate::c03::fragmented_dir_specs(th));
